@@ -4,6 +4,7 @@ import (
 	"context"
 	"flag"
 	"fmt"
+	"regexp"
 	"sort"
 
 	"github.com/cube2222/octosql/execution"
@@ -96,6 +97,18 @@ func fnEval(args []string) error {
 		}
 		stage, e, typ, v := evalCall(c["fn"].(string), av, ts)
 		res := map[string]interface{}{"id": c["id"], "stage": stage, "err": e, "type": vals.FromType(typ), "value": vals.FromValue(v)}
+		if fn := c["fn"].(string); (fn == "~" || fn == "~*") && len(av) == 2 && av[0].TypeID == octosql.TypeIDString && av[1].TypeID == octosql.TypeIDString {
+			// the reference the statement names: Go's regexp on the pattern, and on the pattern with the (?i) flag
+			pat := av[1].Str
+			if fn == "~*" {
+				pat = "(?i)" + pat
+			}
+			if re, err := regexp.Compile(pat); err != nil {
+				res["go"] = "compile error"
+			} else {
+				res["go"] = re.MatchString(av[0].Str)
+			}
+		}
 		if v.TypeID == octosql.TypeIDFloat {
 			res["f64"] = fmt.Sprintf("%v", v.Float)
 		}
